@@ -102,3 +102,24 @@ Theorem C13_only_declarations_change_mode :
   forall v o s, declares o = false -> mode (fst (step v s o)) = mode s.
 Proof. exact only_declarations_change_mode. Qed.
 Print Assumptions C13_only_declarations_change_mode.
+
+(** In every reachable state (every history, failing calls included, on every
+    device whose DMMs are not Microwave channels): a channel name is declared
+    at most once; on a device without reusable channels every channel / DMM
+    id is used at most once; in XY mode every declared channel is a Microwave
+    channel, outside XY mode none is (so Microwave channels never coexist with
+    other channels or DMMs); and channels exist only once a mode is chosen. *)
+Theorem C13_mode_invariant :
+  forall v ops,
+    dev_ok v ->
+    let s := run v ops in
+    NoDup (map ch_name (q_sched s)) /\
+    (d_reusable (v_dev v) = false -> NoDup (ids (sigs (q_sched s)))) /\
+    (q_inxy s = true -> Forall is_xy (sigs (q_sched s))) /\
+    (q_inxy s = false -> Forall (fun x => ~ is_xy x) (sigs (q_sched s))) /\
+    (q_inxy s = false -> q_inising s = false -> sigs (q_sched s) = []).
+Proof.
+  intros v ops Hd. pose proof (mode_inv_run v ops Hd) as H.
+  unfold mode, minv in H. rewrite names_sigs in H. exact H.
+Qed.
+Print Assumptions C13_mode_invariant.
